@@ -146,7 +146,7 @@ def owners_of(metamodel):
 
 class SymPeg:
     def __init__(self, inp, comments_model=None, skipws=True, ws=None,
-                 single=(), fpindex=None, owner=None):
+                 single=(), fpindex=None, owner=None, nodeless_ok=False):
         self.inp = inp
         self.n = inp.n
         self.comments_model = comments_model
@@ -158,6 +158,10 @@ class SymPeg:
         self.fpindex = fpindex
         self.owner = owner or {}
         self.trace = None             # set to a list to record non-terminal evaluations
+        # root-cause model for known findings: a successful match that yields no
+        # parse-tree node is treated as a success by choices and repetitions
+        self.nodeless_ok = nodeless_ok
+        self.edges = None             # set to a dict to record call edges: child key -> [(parent key, cond)]
         self.keep = []
 
     @classmethod
@@ -258,6 +262,26 @@ class SymPeg:
         return (skipws, ws, eol)
 
     # ------------------------------------------------------------ evaluation
+    def call(self, pk, e, pos, st, inc, cond):
+        """ev() that also records under which condition the parent evaluates the child"""
+        if self.edges is not None and cond is not False:
+            self.edges.setdefault((id(e), pos, st, inc), []).append((pk, cond))
+        return self.ev(e, pos, st, inc)
+
+    def reach(self, key, _memo=None):
+        """condition under which the real parser evaluates key (top-down over the call DAG)"""
+        memo = self.__dict__.setdefault('_reach_memo', {})
+        r = memo.get(key)
+        if r is not None:
+            return r
+        inc = self.edges.get(key)
+        if not inc:
+            r = True
+        else:
+            r = Or(*[And(self.reach(pk), c) for pk, c in inc])
+        memo[key] = r
+        return r
+
     def ev(self, e, pos, st, inc=False):
         key = (id(e), pos, st, inc)
         r = self.memo.get(key)
@@ -360,15 +384,18 @@ class SymPeg:
 
     def _ev(self, e, pos, st, inc):
         out = {}
+        pk = (id(e), pos, st, inc)
         if isinstance(e, OrderedChoice):
             st2 = self.st_override(e, st)
             cur = {pos: True}
             for ch in e.nodes:
                 nxt = {}
                 for p, c in cur.items():
-                    res = self.ev(ch, p, st2, inc)
+                    res = self.call(pk, ch, p, st2, inc, c)
                     for (end, k), o in res.items():
-                        if k == N_:
+                        if self.nodeless_ok:
+                            self.add(out, (end, k), with_c(o, c))
+                        elif k == N_:
                             self.addc(nxt, end, And(c, o.c))
                         else:
                             self.add(out, (end, T_ if k == T_ else X_), with_c(o, c))
@@ -383,7 +410,7 @@ class SymPeg:
             for ch in e.nodes:
                 nxt = {}
                 for (p, aT, aX), o1 in cur.items():
-                    for (end, k), o2 in self.ev(ch, p, st2, inc).items():
+                    for (end, k), o2 in self.call(pk, ch, p, st2, inc, o1.c).items():
                         self.add(nxt, (end, aT or k == T_, aX or k == X_), seq(o1, o2))
                 cur = nxt
                 if not cur:
@@ -392,7 +419,7 @@ class SymPeg:
                 self.add(out, (p, T_ if aT else (X_ if aX else N_)), o)
             return out
         if isinstance(e, Optional):
-            res = self.ev(e.nodes[0], pos, st, inc)
+            res = self.call(pk, e.nodes[0], pos, st, inc, True)
             for (end, k), o in res.items():
                 # [child]: [None] -> None; [E] / [X] -> truthy but flat-empty
                 self.add(out, (end, N_ if k == N_ else (T_ if k == T_ else X_)), o)
@@ -405,13 +432,13 @@ class SymPeg:
         if isinstance(e, PAnd):
             c = True
             for ch in e.nodes:
-                c = And(c, self.succ(self.ev(ch, pos, st, inc)))
+                c = And(c, self.succ(self.call(pk, ch, pos, st, inc, True)))
             self.add(out, (pos, N_), Out(c))
             return out
         if isinstance(e, PNot):
             c = False
             for ch in e.nodes:
-                c = Or(c, Not(self.succ(self.ev(ch, pos, st, inc))))
+                c = Or(c, Not(self.succ(self.call(pk, ch, pos, st, inc, True))))
             self.add(out, (pos, N_), Out(c))
             return out
         if isinstance(e, Empty):
@@ -420,6 +447,7 @@ class SymPeg:
 
     def _ev_rep(self, e, pos, st, inc):
         out = {}
+        pk = (id(e), pos, st, inc)
         st2 = (st[0], st[1], True) if e.eolterm else st
         one = isinstance(e, OneOrMore)
         rn = e.rule_name or ''
@@ -433,7 +461,7 @@ class SymPeg:
             for (p, aT), o0 in cur.items():
                 kind_now = E_ if it == 0 else (T_ if aT else X_)
                 if e.sep is not None and it > 0:
-                    sres = self.ev(e.sep, p, st2, inc)
+                    sres = self.call(pk, e.sep, p, st2, inc, o0.c)
                     self.add(out, (p, kind_now), with_c(o0, Not(self.succ(sres))))
                     mids = {}
                     for (se, sk), so in sres.items():
@@ -441,11 +469,11 @@ class SymPeg:
                 else:
                     mids = {p: o0}
                 for mp, mo in mids.items():
-                    res = self.ev(e.nodes[0], mp, st2, inc)
+                    res = self.call(pk, e.nodes[0], mp, st2, inc, mo.c)
                     if not (one and it == 0):
                         self.add(out, (p, kind_now), with_c(mo, Not(self.succ(res))))
                     for (end_, k), d in res.items():
-                        if k in (N_, E_):
+                        if k in (N_, E_) and not (self.nodeless_ok and end_ > mp):
                             # falsy element: loop stops, position stays advanced
                             self.add(out, (end_, kind_now), with_c(mo, d.c))
                         else:
@@ -463,6 +491,7 @@ class SymPeg:
 
     def _ev_unordered(self, e, pos, st, inc):
         out = {}
+        pk = (id(e), pos, st, inc)
         st2 = (st[0], st[1], True) if e.eolterm else st
         nodes = e.nodes
 
@@ -481,7 +510,7 @@ class SymPeg:
                     finish(o, p0, aT, aX)
                     continue
                 if e.sep is not None and not first:
-                    sres = self.ev(e.sep, p0, st2, inc)
+                    sres = self.call(pk, e.sep, p0, st2, inc, o.c)
                     branches = [(end, And(o.c, so.c), False) for (end, k), so in sres.items()]
                     branches.append((p0, And(o.c, Not(self.succ(sres))), True))
                 else:
@@ -493,12 +522,12 @@ class SymPeg:
                     for idx in rem:
                         newrun = {}
                         for (cp, mflag), rc in run.items():
-                            res = self.ev(nodes[idx], cp, st2, inc)
+                            res = self.call(pk, nodes[idx], cp, st2, inc, rc)
                             for (end, k), ro in res.items():
                                 cc = And(rc, ro.c)
                                 if cc is False:
                                     continue
-                                if k in (T_, X_):
+                                if k in (T_, X_) or (self.nodeless_ok and end > cp):
                                     if sepfail:
                                         self.addc(newrun, (ploc, False), cc)
                                     else:
